@@ -44,10 +44,15 @@ type plan struct {
 	NPoints    int
 	RealHH     bool
 	OutOfOrder bool
+	Cluster    *clusterPlan // cluster mode (whole write path with real components)
 }
 
 func genPlan(t *rapid.T) interface{} {
 	p := &plan{}
+	if rapid.IntRange(0, 7).Draw(t, "clustermode") == 0 {
+		p.Cluster = genClusterPlan(t)
+		return p
+	}
 	n := rapid.IntRange(1, 5).Draw(t, "owners")
 	p.TimeoutMS = rapid.SampledFrom([]int{50, 200, 1000, 5000}).Draw(t, "timeout_ms")
 	used := map[int]bool{p.TimeoutMS: true}
@@ -260,6 +265,10 @@ func levelName(l models.ConsistencyLevel) string {
 
 func exec(run *core.Run, pl interface{}) {
 	p := pl.(*plan)
+	if p.Cluster != nil {
+		execCluster(run, p.Cluster)
+		return
+	}
 	w := &world{p: p, run: run, stored: map[uint64][][]byte{}, hhCalls: map[uint64][][][]byte{}, hhEmpty: map[uint64]int{},
 		delivered: map[uint64][][]byte{}}
 	pw := coordinator.NewPointsWriter()
@@ -487,6 +496,20 @@ func describe(pl interface{}) interface{} {
 	for _, o := range p.Owners {
 		os = append(os, fmt.Sprintf("node%d delay=%dms outcome=%s busy=%v hh=%s", o.NodeID, o.DelayMS, o.Outcome, o.QueueBusy, o.HH))
 	}
+	if p.Cluster != nil {
+		var steps []string
+		for _, s := range p.Cluster.Steps {
+			switch {
+			case s.Write != nil:
+				steps = append(steps, fmt.Sprintf("write(level=%d,points=%d,series=%d)", s.Write.Level, s.Write.NPoints, s.Write.Series))
+			case s.Faults != nil:
+				steps = append(steps, fmt.Sprintf("faults%v", s.Faults))
+			default:
+				steps = append(steps, fmt.Sprintf("sleep(%ds)", s.Sleep))
+			}
+		}
+		return map[string]interface{}{"mode": "cluster", "nodes": p.Cluster.Nodes, "rf": p.Cluster.RF, "coordinator": p.Cluster.Coord, "index": p.Cluster.Index, "steps": steps}
+	}
 	return map[string]interface{}{"level": levelName(p.Level), "coordinator": p.Coord, "timeout_ms": p.TimeoutMS, "owners": os, "points": p.NPoints, "real_hh": p.RealHH, "allow_out_of_order": p.OutOfOrder}
 }
 
@@ -498,13 +521,13 @@ func TestC03(t *testing.T) {
 		Bubble:         true,
 		Describe:       describe,
 		Tier:           "A",
-		RequiredProbes: []string{"level-any", "level-one", "level-quorum", "level-all", "level-met", "level-not-met", "handoff-offered", "real-handoff-delivered"},
-		Real:           []string{"coordinator.PointsWriter (MapShards, writeToShardWithContext)", "hh.Service / NodeProcessor / queue (half of the runs)", "models binary point encoding"},
-		Stub:           []string{"owners' stores (local TSDBStore, remote ShardWriter): outcome and answer time scripted", "meta client (one shard, drawn owners)", "hinted handoff as a model queue (other half of the runs)"},
+		RequiredProbes: []string{"level-any", "level-one", "level-quorum", "level-all", "level-met", "level-not-met", "handoff-offered", "real-handoff-delivered", "cluster-write-run", "handoff-accepted", "acknowledged-with-owners-missing", "write-refused"},
+		Real:           []string{"coordinator.PointsWriter (MapShards, writeToShardWithContext)", "hh.Service / NodeProcessor / queue (half of the runs)", "models binary point encoding", "cluster mode (one run in eight): 2-4 real data nodes - tsdb.Store, coordinator.Service behind tcp.Mux, ShardWriter with connection pools, PointsWriter, hh.Service with queues and retry loops - on the simulated network and clock"},
+		Stub:           []string{"owners' stores (local TSDBStore, remote ShardWriter): outcome and answer time scripted", "meta client (one shard, drawn owners)", "hinted handoff as a model queue (other half of the runs)", "cluster mode: meta client over generated metadata; a node taken down stays down for the rest of the run"},
 		Assumptions: []string{
 			"answer times are distinct and never equal to the timeout, so that every race is decided by the plan",
 			"when some owner has not answered by the timeout and the level is not met, any error is accepted (timeout or partial write)",
 		},
-		Rule: "a run = one batch written by the real PointsWriter to a shard with 1-5 owners; drawn: coordinator position, consistency level, per-owner outcome (stored / retryable / permanent / local error), answer time (before or after the timeout), handoff queue already non-empty, handoff accepts / refuses; non-trivial = more than one owner; distinct = distinct (level, #owners, met, real-hh, fault kinds, probes)",
+		Rule: "a run = one batch written by the real PointsWriter to a shard with 1-5 owners; drawn: coordinator position, consistency level, per-owner outcome (stored / retryable / permanent / local error), answer time (before or after the timeout), handoff queue already non-empty, handoff accepts / refuses; non-trivial = more than one owner; distinct = distinct (level, #owners, met, real-hh, fault kinds, probes); cluster mode: 2-12 steps on a real cluster (writes of 1-4 points at a drawn level; fault assignments per node: down, refuse, stall, reset, slow+fragmented, failing local write; sleeps), then heal and drain: an acknowledged write is on as many owners as its level demands when it is acknowledged, what handoff accepted reaches every reachable owner, no owner holds unwritten data",
 	})
 }
